@@ -74,7 +74,7 @@ class Findings:
 # ---------------------------------------------------------------------------
 # root-cause keys
 
-CLASSY = ('type', 'nt', 'dc', 'inst')
+CLASSY = ('type', 'nt', 'dc', 'inst', 'call')
 PYEQ = {('int', '1'): 1, ('bool', 'True'): 1, ('float', '1.0'): 1, ('int', '0'): 0, ('bool', 'False'): 0, ('float', '0.0'): 0,
         ('float', '-0.0'): 0, ('complex', '(1+0j)'): 1, ('complex', '0j'): 0, ('int', '2'): 2, ('float', '2.0'): 2}
 
@@ -135,7 +135,7 @@ def key_injective(a, b, classtab):
 def _route(t):
     if t[0] in ('ndarray', 'arraydata'):
         return t[1][2]
-    if t[0] == 'inst':
+    if t[0] in ('inst', 'call'):
         return t[1][1]
     if t[0] == 'npscalar':
         return t[1][0]
@@ -159,23 +159,26 @@ def short(t, n=160):
 # ---------------------------------------------------------------------------
 # 1. design level
 
-def design_jobs(tier):
+def design_jobs(tier, seed):
     lvl = '' if tier == 'quick' else '2'
-    n5 = '' if tier == 'quick' else '5'
     nworkers = max(2, (os.cpu_count() or 4) // 4)
-    return {
-        'code': dict(module='MCHash', cfg='MCHash_code{}.cfg'.format(lvl), tag='c17-hash-code', deadlock=False, workers=nworkers, extra=['-continue'], timeout=2400, heap='6g'),
-        'fixed': dict(module='MCHash', cfg='MCHash_fixed{}.cfg'.format(lvl), tag='c17-hash-fixed', coverage=True, deadlock=False, workers=nworkers, timeout=2400, heap='6g'),
-        'intern_scalar': dict(module='MCIntern', cfg='MCIntern_scalar{}.cfg'.format(n5), tag='c17-intern-scalar', coverage=True, deadlock=False, workers=nworkers, timeout=1200),
-        'intern_array': dict(module='MCIntern', cfg='MCIntern_array{}.cfg'.format(n5), tag='c17-intern-array', deadlock=False, workers=nworkers, timeout=1200),
+    jobs = {
+        'code': dict(module='MCHash', cfg='MCHash_code{}.cfg'.format(lvl), tag='c17-hash-code', deadlock=False, workers=nworkers, extra=['-continue'], timeout=3000, heap='6g'),
+        'fixed': dict(module='MCHash', cfg='MCHash_fixed{}.cfg'.format(lvl), tag='c17-hash-fixed', coverage=True, deadlock=False, workers=nworkers, timeout=3000, heap='6g'),
+        'intern_scalar': dict(module='MCIntern', cfg='MCIntern_scalar.cfg' if tier == 'quick' else 'MCIntern_scalar_full.cfg', tag='c17-intern-scalar', coverage=True, deadlock=False, workers=nworkers, timeout=1200),
+        'intern_array': dict(module='MCIntern', cfg='MCIntern_array.cfg' if tier == 'quick' else 'MCIntern_array_full.cfg', tag='c17-intern-array', deadlock=False, workers=nworkers, timeout=1200),
         'intern_pyeq': dict(module='MCIntern', cfg='MCIntern_scalar_pyeq.cfg', tag='c17-intern-pyeq', deadlock=False, workers=1, timeout=600),
-        'intern_pyeq_pred': dict(module='MCIntern', cfg='MCIntern_scalar{}_pyeq_pred.cfg'.format(n5), tag='c17-intern-pyeq-pred', deadlock=False, workers=nworkers, timeout=1200),
     }
+    if tier != 'quick':
+        # random deeper histories (8 operations)
+        jobs['intern_scalar_sim'] = dict(module='MCIntern', cfg='MCIntern_scalar_sim.cfg', tag='c17-intern-scalar-sim', deadlock=False, workers=nworkers, simulate=dict(num=15000), depth=9, seed=seed, timeout=1200)
+        jobs['intern_array_sim'] = dict(module='MCIntern', cfg='MCIntern_array_sim.cfg', tag='c17-intern-array-sim', deadlock=False, workers=nworkers, simulate=dict(num=8000), depth=9, seed=seed, timeout=1200)
+    return jobs
 
 
-def start_design(tier):
+def start_design(tier, seed):
     """all design-level TLC runs start at once (each is a JVM subprocess); returns name -> future"""
-    jobs = design_jobs(tier)
+    jobs = design_jobs(tier, seed)
     ex = concurrent.futures.ThreadPoolExecutor(max_workers=len(jobs))
 
     def go(name):
@@ -189,16 +192,19 @@ def finish_design(rep, res, tier):
     for name in ('fixed', 'code', 'intern_scalar', 'intern_array'):
         rep.add_tlc(res[name], exhaustive=True)
     rep.add_tlc(res['intern_pyeq'])
+    for name in ('intern_scalar_sim', 'intern_array_sim'):
+        if name in res:
+            rep.add_tlc(res[name], exhaustive=None)
     # the repaired design and the exact-key intern tables must satisfy every invariant
-    for name in ('fixed', 'intern_scalar', 'intern_array', 'intern_pyeq_pred'):
-        if res[name].violated:
+    for name in ('fixed', 'intern_scalar', 'intern_array', 'intern_scalar_sim', 'intern_array_sim'):
+        if name in res and res[name].violated:
             raise RuntimeError('design spec run {!r} violates {} (the model or the universe is wrong)'.format(name, res[name].violated))
     # vacuity guard: every action of Hash and of Intern was taken
     zero = [a for a, n in rep.actions.items() if n == 0]
     if zero:
         raise RuntimeError('vacuity: actions never taken: {}'.format(zero))
     need = {'AScalar', 'ANumpyScalar', 'AClass', 'ATupleOf', 'ADictOf', 'ASetOf', 'ANamedTupleOf', 'ADataclassOf', 'ANdArray', 'AArrayData', 'AInstance',
-            'AFrozenDictOf', 'AFrozenMultisetOf', 'AHashableFunctionOf', 'ABoundMethod', 'ABuffer',
+            'AFrozenDictOf', 'AFrozenMultisetOf', 'AHashableFunctionOf', 'ABoundMethod', 'ABuffer', 'ACachedCall',
             'ATuple', 'ATupleL', 'ATupleR', 'AList', 'ADictVal', 'ANamedTuple', 'ADictKey', 'ASet', 'AFrozenSet', 'AFrozenDict', 'AFrozenMultiset',
             'AImmutableArg', 'ADataClassArg', 'AHashableFunction', 'Construct', 'Load', 'Drop', 'Dump'}
     missing = need - set(rep.actions)
@@ -208,7 +214,7 @@ def finish_design(rep, res, tier):
     if res['intern_pyeq'].violated != 'ExactArgs':
         raise RuntimeError('spec mutant Intern/KeyMode=pyeq should violate ExactArgs, got {!r}'.format(res['intern_pyeq'].violated))
     rep.constants['Hash'] = dict(Level=1 if tier == 'quick' else 2, TagMode=['qualified', 'name'])
-    rep.constants['Intern'] = dict(MaxOps=4 if tier == 'quick' else 5, MaxPickles=1, KeyMode=['exact', 'pyeq'])
+    rep.constants['Intern'] = dict(MaxOps='4 exhaustive' if tier == 'quick' else '4 exhaustive (all calls) + 8 simulated', MaxPickles=1, KeyMode=['exact', 'pyeq'])
 
 
 def split_emitted(res):
@@ -235,16 +241,23 @@ def split_emitted(res):
 # 2. T / S->C: the table of real digests
 
 def _hash_or_error(v):
-    from nutils import types
-    try:
-        h = types.nutils_hash(v)
-    except Exception as e:
-        return 'raise:' + type(e).__name__
-    return h.hex() if isinstance(h, bytes) else 'notbytes:' + type(h).__name__
+    return V.nutils_digest(v)
+
+
+def _has_nonnative(t):
+    native = '<' if sys.byteorder == 'little' else '>'
+    if t[0] == 'ndarray' and t[1][0][0] in '<>' and t[1][0][0] != native:
+        return True
+    return any(_has_nonnative(k) for k in t[2])
 
 
 def real_table(rep, classtab, terms, tier, rng):
     reg = V.Registry(classtab)
+    # random nestings of the same grammar (seed dependent), judged by TLC like the emitted universe
+    known = {json.dumps(t) for t in terms}
+    extra = [t for t in V.random_terms(rng, 400 if tier == 'quick' else 4000, reg) if json.dumps(t) not in known]
+    terms = terms + extra
+    rep.extra['random_terms'] = len(extra)
     n = len(terms)
     cols = {c: [None] * n for c in COLS}
     blobs = [None] * n
@@ -265,15 +278,14 @@ def real_table(rep, classtab, terms, tier, rng):
             blobs[i] = pickle.dumps(v)
         except Exception:
             blobs[i] = None          # not picklable (local function, two classes under one name, ...): column not available
+        if blobs[i] is not None and _has_nonnative(t):
+            # numpy's own pickling converts non-native byte order: the round trip yields another value
+            rep.skip('numpy pickle changes the dtype of a non-native ndarray')
+            blobs[i] = None
         if blobs[i] is not None:
             try:
                 w = pickle.loads(blobs[i])
-                if t[0] == 'ndarray' and w.dtype.str != v.dtype.str:
-                    # numpy's own pickling converts non-native byte order: the round trip yields another value
-                    rep.skip('numpy pickle changes the dtype of a non-native ndarray')
-                    blobs[i] = None
-                else:
-                    cols['pickle'][i] = _hash_or_error(w)
+                cols['pickle'][i] = _hash_or_error(w)
                 del w
             except Exception as e:
                 cols['pickle'][i] = 'raise:' + type(e).__name__
@@ -340,6 +352,11 @@ def real_table(rep, classtab, terms, tier, rng):
         assert r['seed'] == seeds[k]
         name = ['seedA', 'seedB', 'seedC'][k]
         cols[name] = r['terms']
+        if isinstance(r['real'], str) or len(r['real']) != len(rlabels):
+            if corpus:
+                rep.violation('real-corpus:raises:other-process', 'building ordinary nutils objects failed in another interpreter (PYTHONHASHSEED={}): {}'.format(seeds[k], r['real'] if isinstance(r['real'], str) else 'different corpus'), dict(seed=seeds[k]))
+            r['real'] = [None] * len(rlabels)
+            r['unpickled'] = r['unpickled'][:n] + [None] * len(rlabels)
         rcols[name] = r['real']
         if k == 0:
             cols['xpickle'] = r['unpickled'][:n]
@@ -378,7 +395,7 @@ def real_table(rep, classtab, terms, tier, rng):
     with open(tpath, 'w') as f:
         json.dump(table, f)
     rep.extra['table_rows'] = dict(model_values=len(terms), real_objects=len([t for t in rterms if t is not None]), real_classes=len(classes), distinct_digests=len(ids))
-    return tpath, rows, origin, rlabels, classes
+    return tpath, rows, origin, rlabels, classes, terms
 
 
 def judge_table(rep, res, rows, origin, rlabels, classtab, classes, predicted):
@@ -521,7 +538,7 @@ class ArrayTarget:
         return self.cls(numpy.array([int(x) for x in vals.split(',')], dtype=dict(int=int, bool=bool, float=float)[knd]))
 
 
-def replay_intern(rep, target, behaviours, pyeq_pred):
+def replay_intern(rep, target, behaviours):
     """step the real class through every behaviour; returns number replayed"""
     from nutils import types
     # reference hashes: each canonical argument tuple constructed alone in an empty table
@@ -580,13 +597,12 @@ def replay_intern(rep, target, behaviours, pyeq_pred):
         rep.case(('intern', target.base, ops), nontrivial=sum(1 for s in b['hist'] if s['op'] != 'new') >= 1 and len(b['hist']) >= 3)
         if bad is not None:
             si, why = bad
-            # name the root cause with the spec mutant: does the code follow the python-equality-key table?
-            alt = pyeq_pred.get(ops)
-            follows = alt is not None and len(obs) == len(alt) and all(o['obj'] == a['obj'] and o['args'] == a['args'] and o['nlive'] == a['nlive'] for o, a in zip(obs, alt))
+            # name the root cause with the model's shadow table: does the code follow the python-equality-key table?
+            follows = len(obs) == len(b['hist']) and all(o['obj'] == s['objP'] and o['args'] == s['argsP'] and o['nlive'] == s['nliveP'] for o, s in zip(obs, b['hist']))
             key = 'intern:{}:pyeq-key'.format(target.base) if follows else 'intern:{}:{}-mismatch'.format(target.base, b['hist'][si]['op'])
             prefix = [(s['op'], s['a'] or s['k']) for s in b['hist'][:si + 1]]
             fnd.add(key, si, 'interned {}: after {} {}'.format(target.base, prefix, why) + (' -- the code behaves like Intern with KeyMode="pyeq" (weak table keyed by python ==)' if follows else ''),
-                          dict(base=target.base, history=b['hist'][:si + 1], observed=obs[:si + 1], full=None if follows else dict(hist=b['hist'], observed=obs, pyeq=alt)))
+                          dict(base=target.base, history=b['hist'][:si + 1], observed=obs[:si + 1], full=None if follows else dict(hist=b['hist'], observed=obs)))
         handles.clear()
         numbers.clear()
         if len(target.cache) != base0:
@@ -600,19 +616,20 @@ def replay_intern(rep, target, behaviours, pyeq_pred):
 
 def intern_conformance(rep, res):
     behaviours = {'scalar': [], 'array': []}
-    for e in res['intern_scalar'].emitted:
-        behaviours['scalar'].append(e)
-    for e in res['intern_array'].emitted:
-        behaviours['array'].append(e)
-    pyeq = {}
-    for e in res['intern_pyeq_pred'].emitted:
-        pyeq[tuple((s['op'], s['a'], s['k']) for s in e['hist'])] = e['hist']
+    for name in ('intern_scalar', 'intern_scalar_sim', 'intern_array', 'intern_array_sim'):
+        if name in res:
+            seen = set()
+            for e in res[name].emitted:
+                sig = tuple((s['op'], s['a'], s['k']) for s in e['hist'])
+                if sig not in seen:
+                    seen.add(sig)
+                    behaviours[e['label']].append(e)
     if not behaviours['scalar'] or not behaviours['array']:
         raise RuntimeError('Intern emitted no behaviours')
     n = 0
-    n += replay_intern(rep, ScalarTarget('Singleton'), behaviours['scalar'], pyeq)
-    n += replay_intern(rep, ScalarTarget('DataClass'), behaviours['scalar'], pyeq)
-    n += replay_intern(rep, ArrayTarget(), behaviours['array'], {})
+    n += replay_intern(rep, ScalarTarget('Singleton'), behaviours['scalar'])
+    n += replay_intern(rep, ScalarTarget('DataClass'), behaviours['scalar'])
+    n += replay_intern(rep, ArrayTarget(), behaviours['array'])
     rep.traces += n
     rep.extra['intern_behaviours_replayed'] = n
     b = behaviours['scalar'][len(behaviours['scalar']) // 2]
@@ -626,17 +643,18 @@ def run(rep):
     rng = random.Random(rep.seed)
     shutil.rmtree(WORKROOT, ignore_errors=True)
     os.makedirs(WORKROOT)
-    ex, fut = start_design(tier)
+    ex, fut = start_design(tier, rep.seed)
     try:
         res = {'code': fut['code'].result()}
         classtab, terms, predicted = split_emitted(res['code'])
         if not classtab or len(terms) < 500:
             raise RuntimeError('Hash emitted no universe')
-        tpath, rows, origin, rlabels, classes = real_table(rep, classtab, terms, tier, rng)
+        tpath, rows, origin, rlabels, classes, terms = real_table(rep, classtab, terms, tier, rng)
         tfut = ex.submit(tlc.run, 'HashTable', 'HashTable.cfg', tag='c17-table', env=dict(VF_TABLE=tpath), deadlock=False, extra=['-continue'], timeout=2400, heap='6g',
                          workers=max(2, (os.cpu_count() or 4) // 2))
-        for name in ('intern_scalar', 'intern_array', 'intern_pyeq', 'intern_pyeq_pred'):
-            res[name] = fut[name].result()
+        for name in fut:
+            if name.startswith('intern'):
+                res[name] = fut[name].result()
         intern_conformance(rep, res)
         res['fixed'] = fut['fixed'].result()
         finish_design(rep, res, tier)
